@@ -533,3 +533,66 @@ pub(crate) struct MarketPriceOptions {
     pub(crate) allow_long_closed: bool,
     pub(crate) allow_short_closed: bool,
 }
+
+/// Verification hooks (additive, `verif` feature only).
+#[cfg(feature = "verif")]
+pub mod verif {
+    use super::*;
+
+    /// `try_adjust_price_with_max_deviation_factor`.
+    pub fn try_adjust_price_with_max_deviation_factor(
+        factor: &u128,
+        price: &gmsol_utils::Price,
+        ref_price: Option<&Decimal>,
+    ) -> Option<gmsol_utils::Price> {
+        super::try_adjust_price_with_max_deviation_factor(factor, price, ref_price)
+    }
+
+    /// Wrapper around the crate-private price validator.
+    pub struct Validator(PriceValidator);
+
+    impl Validator {
+        /// Create from the store (reads the clock sysvar).
+        pub fn new(store: &Store) -> Result<Self> {
+            Ok(Self(PriceValidator::try_from(store)?))
+        }
+
+        /// `PriceValidator::validate_one`.
+        pub fn validate_one(
+            &mut self,
+            token_config: &TokenConfig,
+            provider: &PriceProviderKind,
+            oracle_ts: i64,
+            oracle_slot: u64,
+            price: &gmsol_utils::Price,
+            ref_price: Option<&Decimal>,
+        ) -> Result<()> {
+            self.0
+                .validate_one(token_config, provider, oracle_ts, oracle_slot, price, ref_price)
+        }
+
+        /// `PriceValidator::merge_range`.
+        pub fn merge_range(&mut self, slot: Option<u64>, min_ts: i64, max_ts: i64) {
+            self.0.merge_range(slot, min_ts, max_ts)
+        }
+
+        /// `PriceValidator::finish`.
+        pub fn finish(self) -> Result<Option<(u64, i64, i64)>> {
+            self.0.finish()
+        }
+    }
+
+    /// `SmallPrices::from_price`, returning `(decimal multiplier, min, max)`.
+    pub fn small_prices_from_price(
+        price: &gmsol_utils::Price,
+        is_synthetic: bool,
+        is_open: bool,
+    ) -> Result<(u8, u32, u32)> {
+        let p = price_map::SmallPrices::from_price(price, is_synthetic, is_open)?;
+        Ok((
+            p.min().decimal_multiplier,
+            p.min().value,
+            p.max().value,
+        ))
+    }
+}
